@@ -17,6 +17,13 @@ pub struct Case {
     pub msgs: Vec<Msg>,
     /// selects the sampled bit positions for messages longer than 96 bytes
     pub variant_seed: u64,
+    /// sequence position of the first message (both contexts are placed there through the hook)
+    #[serde(default)]
+    pub start: u64,
+    /// additionally seal this many empty-plaintext messages (distinct aad) and try every truncation
+    /// of each: a rejected-by-luck tag pattern (e.g. a tag ending in 0x00) needs many tags
+    #[serde(default)]
+    pub empty_messages: u16,
 }
 
 pub struct P;
@@ -125,8 +132,9 @@ fn variants(i: usize, sealed: &[(Vec<u8>, Msg)], seed: u64, nt: usize) -> (Vec<V
     (v, exhaustive)
 }
 
-fn fresh_receiver(d: &dyn DynSuite, sess: &Session, keys: &gen::Keys, enc: &[u8], sealed: &[(Vec<u8>, Msg)], pos: usize) -> Result<Box<dyn DynReceiver>, Verdict> {
+fn fresh_receiver(d: &dyn DynSuite, sess: &Session, keys: &gen::Keys, enc: &[u8], sealed: &[(Vec<u8>, Msg)], pos: usize, start: u64) -> Result<Box<dyn DynReceiver>, Verdict> {
     let mut rcv = honest_receiver(d, sess, keys, enc)?;
+    rcv.set_seq(start);
     for (ct, m) in &sealed[..pos] {
         match rcv.open(ct, &m.aad) {
             Ok(p) if p == m.pt.0 => {}
@@ -147,25 +155,42 @@ fn check(case: &Case, obs: &mut Obs) -> Verdict {
         Ok(x) => x,
         Err(v) => return v,
     };
+    let start = case.start;
+    if start != 0 {
+        obs.label("start-position-nonzero");
+    }
+    snd.set_seq(start);
     let mut sealed: Vec<(Vec<u8>, Msg)> = Vec::new();
     for m in &case.msgs {
         match snd.seal(&m.pt, &m.aad) {
             Ok(ct) if ct.len() == m.pt.len() + nt => sealed.push((ct, m.clone())),
+            Err(HpkeError::MessageLimitReached) => break, // the sender ran into its limit near 2^64-1
             other => return Verdict::skip(format!("construction_failed(seal: {:?})", other.map(|c| c.len()))),
         }
+    }
+    if sealed.is_empty() {
+        return Verdict::skip("empty pool");
     }
     let mr = sess.mode_r(&keys);
     let mut has_aad_flip = false;
     let mut has_cross = false;
     for i in 0..sealed.len() {
         // positive control
-        let mut rcv = match fresh_receiver(d, sess, &keys, &enc, &sealed, i) {
+        let mut rcv = match fresh_receiver(d, sess, &keys, &enc, &sealed, i, start) {
             Ok(r) => r,
             Err(v) => return v,
         };
-        match rcv.open(&sealed[i].0, &sealed[i].1.aad) {
-            Ok(p) if p == sealed[i].1.pt.0 => {}
-            other => return Verdict::skip(format!("construction_failed(positive control: {:?})", other.map(|p| p.len()))),
+        {
+            // positive control on a receiver of its own: a success at position 2^64-1 exhausts a
+            // context, which must not leak into the variant attempts below
+            let mut pc = match fresh_receiver(d, sess, &keys, &enc, &sealed, i, start) {
+                Ok(r) => r,
+                Err(v) => return v,
+            };
+            match pc.open(&sealed[i].0, &sealed[i].1.aad) {
+                Ok(p) if p == sealed[i].1.pt.0 => {}
+                other => return Verdict::skip(format!("construction_failed(positive control: {:?})", other.map(|p| p.len()))),
+            }
         }
         let (vars, exhaustive) = variants(i, &sealed, case.variant_seed, nt);
         obs.label(if exhaustive { "flips:exhaustive" } else { "flips:sampled" });
@@ -182,13 +207,13 @@ fn check(case: &Case, obs: &mut Obs) -> Verdict {
             let fresh = vi % 16 == 0;
             let mut own;
             let r: &mut dyn DynReceiver = if fresh {
-                own = match fresh_receiver(d, sess, &keys, &enc, &sealed, i) {
+                own = match fresh_receiver(d, sess, &keys, &enc, &sealed, i, start) {
                     Ok(r) => r,
                     Err(v) => return v,
                 };
                 own.as_mut()
             } else {
-                rcv.set_seq(i as u64);
+                rcv.set_seq(start.wrapping_add(i as u64));
                 rcv.as_mut()
             };
             let describe = |api: &str, got: String| {
@@ -205,7 +230,7 @@ fn check(case: &Case, obs: &mut Obs) -> Verdict {
             }
             if var.ct.len() >= nt {
                 if !fresh {
-                    r.set_seq(i as u64);
+                    r.set_seq(start.wrapping_add(i as u64));
                 }
                 let split = var.ct.len() - nt;
                 let mut buf = var.ct[..split].to_vec();
@@ -221,7 +246,7 @@ fn check(case: &Case, obs: &mut Obs) -> Verdict {
                 }
             }
             // single-shot interfaces see the first message of a session; sample them (each costs a decap)
-            if i == 0 && (vi % 8 == 0 || var.what.contains("aad") || var.what.contains("tag")) {
+            if i == 0 && start == 0 && (vi % 8 == 0 || var.what.contains("aad") || var.what.contains("tag")) {
                 obs.inner_checks += 1;
                 match d.single_shot_open(&mr, &keys.sk_r, &enc, &sess.info, &var.ct, &var.aad) {
                     Err(Fail::Hpke(HpkeError::OpenError)) => {}
@@ -262,12 +287,12 @@ fn check(case: &Case, obs: &mut Obs) -> Verdict {
         for l in 0..nt {
             tags.push((format!("tag truncated to {} bytes", l), tag[..l].to_vec()));
         }
-        let mut rcv = match fresh_receiver(d, sess, &keys, &enc, &sealed, i) {
+        let mut rcv = match fresh_receiver(d, sess, &keys, &enc, &sealed, i, start) {
             Ok(r) => r,
             Err(v) => return v,
         };
         for (what, t) in &tags {
-            rcv.set_seq(i as u64);
+            rcv.set_seq(start.wrapping_add(i as u64));
             let mut buf = ct[..split].to_vec();
             obs.inner_checks += 1;
             if let Ok(()) = rcv.open_in_place(&mut buf, &m.aad, t) {
@@ -276,7 +301,7 @@ fn check(case: &Case, obs: &mut Obs) -> Verdict {
                     format!("message {} ({} pt bytes): open_in_place_detached accepted a {} ({} bytes) and left {} ({} mode {})", i, m.pt.len(), what, t.len(), hex_short(&buf), suite.label(), sess.mode),
                 );
             }
-            if i == 0 {
+            if i == 0 && start == 0 {
                 let mut buf = ct[..split].to_vec();
                 obs.inner_checks += 1;
                 if let Ok(()) = d.single_shot_open_in_place(&mr, &keys.sk_r, &enc, &sess.info, &mut buf, &m.aad, t) {
@@ -284,6 +309,47 @@ fn check(case: &Case, obs: &mut Obs) -> Verdict {
                         "C06/single-shot-open-in-place/accepted-modified-tag-length",
                         format!("single_shot_open_in_place_detached accepted a {} ({} bytes) ({} mode {})", what, t.len(), suite.label(), sess.mode),
                     );
+                }
+            }
+        }
+    }
+    // many empty-plaintext messages: every proper prefix and every 1-byte extension of each tag
+    if case.empty_messages > 0 {
+        obs.label("many-empty-messages");
+        let (enc2, mut snd2) = match honest_sender(d, sess, &keys) {
+            Ok(x) => x,
+            Err(v) => return v,
+        };
+        let mut rcv2 = match honest_receiver(d, sess, &keys, &enc2) {
+            Ok(r) => r,
+            Err(v) => return v,
+        };
+        for k in 0..case.empty_messages as u64 {
+            let aad = k.to_le_bytes();
+            let pos = k.wrapping_mul(0x9e3779b97f4a7c15) >> 1; // spread over positions, below the limit
+            snd2.set_seq(pos);
+            let Ok(ct) = snd2.seal(b"", &aad) else { return Verdict::skip("construction_failed(seal empty)") };
+            for l in 0..ct.len() {
+                rcv2.set_seq(pos);
+                obs.inner_checks += 1;
+                match rcv2.open(&ct[..l], &aad) {
+                    Err(HpkeError::OpenError) => {}
+                    other => {
+                        return Verdict::fail(
+                            "C06/open/accepted-truncated-empty-message",
+                            format!("an empty-plaintext message (tag {}) truncated to {} bytes: open returned {:?} instead of Err(OpenError) ({} mode {})", hex_short(&ct), l, other.map(|p| p.len()), suite.label(), sess.mode),
+                        )
+                    }
+                }
+            }
+            for extra in [0u8, 0xff] {
+                let mut c = ct.clone();
+                c.push(extra);
+                rcv2.set_seq(pos);
+                obs.inner_checks += 1;
+                match rcv2.open(&c, &aad) {
+                    Err(HpkeError::OpenError) => {}
+                    other => return Verdict::fail("C06/open/accepted-extended-empty-message", format!("an empty-plaintext message with byte {:#04x} appended: open returned {:?} ({})", extra, other.map(|p| p.len()), suite.label())),
                 }
             }
         }
@@ -298,7 +364,7 @@ impl Property for P {
         "C06"
     }
     fn rule(&self) -> String {
-        "Generated: (sealing suite, mode, session, 1..=3 messages); per message a variant family: every single-bit flip of ct||tag and of aad (exhaustive for <=96 bytes, all tag bits + 256 sampled positions otherwise), every truncation length, extensions by 1..=17 bytes (zeros / pattern / tag copy / prepended), aad emptied/shortened/extended, tag, aad and whole ciphertext substituted from the other messages of the same context; for the detached interfaces also tags with 1..=17 bytes appended/prepended and tags truncated to 0..Nt-1 bytes. \
+        "Generated: (sealing suite, mode, session, 1..=3 messages, start position 0 / byte-carry boundary / 2^64-1-d through the hook, optionally 50..400 extra empty-plaintext messages whose every proper prefix and 1-byte extension is tried); swept additionally: the families at positions 2^64-1, 2^64-2, 2^64-3, 255, 2^32, 2^56-1 and 2500 empty messages per AEAD; per message a variant family: every single-bit flip of ct||tag and of aad (exhaustive for <=96 bytes, all tag bits + 256 sampled positions otherwise), every truncation length, extensions by 1..=17 bytes (zeros / pattern / tag copy / prepended), aad emptied/shortened/extended, tag, aad and whole ciphertext substituted from the other messages of the same context; for the detached interfaces also tags with 1..=17 bytes appended/prepended and tags truncated to 0..Nt-1 bytes. \
          Each variant is opened at the right position through open and open_in_place_detached (one receiver repositioned through the hook, every 16th variant on a fresh receiver advanced by honest opens) and, for the first message, through single_shot_open and single_shot_open_in_place_detached. \
          Oracle: every attempt returns Err(OpenError); an in-place failure must not leave the plaintext (>=16 bytes) in the buffer; positive control per message. \
          Non-trivial: a case whose families contain aad flips and a cross-message substitution; evaluations counts cases, inner_oracle_comparisons counts open attempts."
@@ -309,8 +375,9 @@ impl Property for P {
     }
     fn strategy(&self, _tier: Tier) -> BoxedStrategy<Case> {
         let msg = (prop_oneof![10 => gen::bytes(64), 1 => gen::bytes(600)], gen::bytes(40)).prop_map(|(pt, aad)| Msg { pt, aad });
-        (gen::session_with(gen::suite_sealing_cheap()), proptest::collection::vec(msg, 1..=3), any::<u64>())
-            .prop_map(|(sess, msgs, variant_seed)| Case { sess, msgs, variant_seed })
+        let start = prop_oneof![7 => Just(0u64), 2 => gen::position(), 1 => (0u64..4).prop_map(|d| u64::MAX - d)];
+        (gen::session_with(gen::suite_sealing_cheap()), proptest::collection::vec(msg, 1..=3), any::<u64>(), start, prop_oneof![6 => Just(0u16), 1 => 50u16..400])
+            .prop_map(|(sess, msgs, variant_seed, start, empty_messages)| Case { sess, msgs, variant_seed, start, empty_messages })
             .boxed()
     }
     fn cases(&self, tier: Tier) -> u32 {
@@ -331,9 +398,26 @@ impl Property for P {
                     Msg { pt: Bytes(gen::fill(20, 5, 3)), aad: Bytes(gen::fill(1, 5, 4)) },
                 ],
                 variant_seed: 6,
+                start: 0,
+                empty_messages: 0,
             });
         }
-        vec![("kem_x_aead_x_mode_cells".into(), cells)]
+        // the same families at the last sequence positions, and many empty messages, per AEAD
+        let mut edge = Vec::new();
+        for (k, aead) in crate::refmodel::hpke_ref::AeadId::SEALING.into_iter().enumerate() {
+            let s = Suite { kem: crate::refmodel::hpke_ref::KemId::X25519, kdf: crate::refmodel::hpke_ref::KdfId::Sha256, aead };
+            for start in [u64::MAX, u64::MAX - 1, u64::MAX - 2, 255, 1 << 32, (1 << 56) - 1] {
+                edge.push(Case {
+                    sess: gen::cell_session(s, k as u8, 66),
+                    msgs: vec![Msg { pt: Bytes(gen::fill(9, 5, 1)), aad: Bytes(gen::fill(2, 5, 2)) }, Msg { pt: Bytes(vec![]), aad: Bytes(vec![7]) }, Msg { pt: Bytes(gen::fill(18, 5, 3)), aad: Bytes(vec![]) }],
+                    variant_seed: 66,
+                    start,
+                    empty_messages: 0,
+                });
+            }
+            edge.push(Case { sess: gen::cell_session(s, 0, 67), msgs: vec![Msg { pt: Bytes(vec![]), aad: Bytes(vec![]) }], variant_seed: 67, start: 0, empty_messages: 2500 });
+        }
+        vec![("kem_x_aead_x_mode_cells".into(), cells), ("last_positions_and_many_empty_messages".into(), edge)]
     }
     fn check(&self, case: &Case, obs: &mut Obs) -> Verdict {
         check(case, obs)
